@@ -76,6 +76,24 @@ class PrivacyHooks:
     def on_return(self, eng, st, val, node):
         self.public(eng, st, val, 'return-value', node)
 
+    def setitem(self, eng, st, tgt, o, k, val, node):
+        """d[key] = v on a local dict: ghost running maxima of the values stored (extern contract of dict: when every key is
+        stored once, max(d.values()) is the maximum of the stored values)."""
+        if isinstance(tgt.value, ast.Name) and isinstance(val, E.Num):
+            name = tgt.value.id
+            vs = shape(val)
+            if vs and vs[0] == 'privscalar':
+                g = 'maxsens:' + name
+                old = st.ghost.get(g, z3.RealVal(0))
+                st.ghost[g] = z3.If(old >= vs[1], old, vs[1])
+            elif z3.is_false(z3.simplify(val.taint)):
+                g = 'maxval:' + name
+                v = val.real()
+                old = st.ghost.get(g)
+                st.ghost[g] = v if old is None else z3.If(old >= v, old, v)
+                st.ghost['stored:' + name] = z3.BoolVal(True)
+        return NotImplemented
+
     def join_ghost(self, eng, st, container, val):
         """ghost of a container after storing `val` into it: elementwise sensitivity is the max."""
         cg = dict(getattr(container, 'ghost', None) or {})
@@ -141,6 +159,13 @@ class PrivacyHooks:
             self.public(eng, st, args[0], 'selection-candidate-count', node)
             st.ghost['n_selections'] = st.ghost.get('n_selections', z3.IntVal(0)) + 1
             return E.Num(eng.fresh('chosen', I), taint=FALSE)
+        if name == 'max' and len(args) == 1 and isinstance(node.args[0], ast.Call) and isinstance(node.args[0].func, ast.Attribute) \
+                and node.args[0].func.attr == 'values' and isinstance(node.args[0].func.value, ast.Name):
+            dname = node.args[0].func.value.id
+            g = st.ghost.get('maxval:' + dname)
+            if g is not None:
+                # max() of an empty dict raises ValueError; otherwise it is the running maximum of the stored values
+                return E.Num(g, taint=args[0].taint)
         if name == 'len' and args and isinstance(args[0], E.Obj) and args[0].cls == 'Domain':
             n = eng.uf('len', V, I)(args[0].t)
             st.assume(n >= 0)
@@ -201,8 +226,12 @@ class PrivacyHooks:
         if es[0] != 'privscalar':
             raise E.Unsupported('selection over %s at line %d' % (es[0], node.lineno))
         actual = es[1]
+        qname = node.args[0].id if getattr(node, 'args', None) and isinstance(node.args[0], ast.Name) else None
+        if qname and ('maxsens:' + qname) in st.ghost:
+            actual = st.ghost['maxsens:' + qname]      # the exact running maximum over the stored scores
         d = declared.real()
-        eng.oblige(st, 'select/declared-sensitivity-positive@L%d' % node.lineno, d > 0, kind='selection-site')
+        # a declared sensitivity <= 0 makes the scores NaN / infinite and the sampler raises (ValueError: probabilities
+        # contain NaN): the path ends without a selection
         st.assume(d > 0)
         eff = eps.real() * actual / d
         if not coef_half:
